@@ -8,14 +8,15 @@ Open Scope Z_scope.
 (* The compact strain list behaves exactly like a plain list under every operation
    sequence: all observations (iteration, into_vec incl. its raw-slice copies, the
    transmute after retain, the length) are those of the list obtained by appending the
-   canonical element per push, filtering zeros per retain and sorting per sort. *)
+   canonical element per push, filtering zeros per retain and sorting per sort — including the
+   length, which after the fix of `retain_non_zero` is the plain list's length in every state. *)
 Theorem C11_sv_refines_plain_list : forall ops : list op,
   legal [] ops -> n_pushes ops < SIGN ->
   let '(s, ok) := run sv_empty ops in
   let l := spec_run [] ops in
   ok = true /\ iter_all s = l /\ into_vec s = Some l
   /\ transmute_into_vec (retain_non_zero s) = Some (filter nonzero l)
-  /\ len s = n_pushes ops.
+  /\ len s = Z.of_nat (length l).
 Proof. exact observe_refines. Qed.
 Print Assumptions C11_sv_refines_plain_list.
 
